@@ -145,9 +145,9 @@ def ensure_harness(variant, name, extra_libs=(), no_access=True):
     try:
         if os.path.exists(exe):
             return exe
-        # drop binaries of older harness versions
+        # drop binaries of older harness versions -- but never ones a concurrently running check may still be using
         for d in os.listdir(vdir):
-            if d.startswith("bin-") and d != "bin-" + hh:
+            if d.startswith("bin-") and d != "bin-" + hh and time.time() - os.path.getmtime(os.path.join(vdir, d)) > 7200:
                 shutil.rmtree(os.path.join(vdir, d), ignore_errors=True)
         bdir = os.path.join(vdir, "cmake")
         logfile = os.path.join(vdir, "harness-%s.log" % name)
